@@ -137,6 +137,10 @@ class SetSort(Sort):
     def comps(self):
         return [("mem", z3.ArraySort(self.elem.comps()[0][1], z3.BoolSort()))]
 
+    @property
+    def z(self):          # a set is one array: usable as the sort of a bound variable / spec-function argument
+        return self.comps()[0][1]
+
 
 class DictSort(Sort):
     def __init__(self, key: Sort, val: Sort):
